@@ -191,8 +191,8 @@ def witness_kf2():
 def witness_kf3():
     try:
         rfa_mod.LinearAdaptiveRFA(np.arange(3.0), np.array([2.3e-177, 0.0, 1.0]), 2, adaptive_smooth=2.0).rfa()
-    except ValueError as e:
-        return True, f"LinearAdaptiveRFA(arange(3),[2.3e-177,0,1],2,adaptive_smooth=2) raises ValueError: {e}"
+    except Exception as e:  # noqa: BLE001 - ValueError on the pinned tree; whatever the NaN window turns into elsewhere
+        return True, f"LinearAdaptiveRFA(arange(3),[2.3e-177,0,1],2,adaptive_smooth=2) raises {type(e).__name__}: {e}"
     return False, "no longer raises"
 
 
@@ -200,7 +200,7 @@ WITNESSES = {"KF-1": witness_kf1, "KF-2": witness_kf2, "KF-3": witness_kf3}
 
 
 SUBCHECKS = [
-    Sub("window", "hyp", window_body, strategy=window_case, quick=2400, thorough=72000,
+    Sub("window", "hyp", gens.with_window_candidates(window_body), strategy=window_case, quick=2400, thorough=72000,
         clause="values between own and neighbouring average; <= a-1 border samples differ; monotone approach"),
     Sub("exact", "hyp", exact_body, strategy=exact_case, quick=600, thorough=12000,
         clause="piecewise-constant exact, spline through every point, constant series stays constant"),
